@@ -36,7 +36,8 @@ func (c18) Budget(tier string) int {
 func (c18) Describe() engine.Info {
 	return engine.Info{
 		Rule: "scenario = power cycle, then 40..500 operations over {write of an arbitrary value to any of FF10-FF3F (incl. the unmapped FF15, FF1F, FF27-FF2F), NR52 power off / on} 0..40 cycles apart with occasional gaps of thousands of cycles. After every operation all of NR10-NR51, NR52 and (while channel 3 is off) wave RAM are read back. " +
-			"Oracle: reference register file: last accepted write | mask; power off -> every register reads its mask and NR52 reads 70 | status; writes while off ignored except NR52 and the length parts of NR11/21/31/41; NR52 bits 4-6 read 1 and bit 7 the power state (bits 0-3 are C19's); wave RAM read with channel 3 off is what was last stored there and survives power cycles. Signature = (register, power state at the write, value class, after power cycle?).",
+			"Oracle: reference register file: last accepted write | mask; power off -> every register reads its mask and NR52 reads 70 | status; writes while off ignored except NR52 and the length parts of NR11/21/31/41; NR52 bits 4-6 read 1 and bit 7 the power state (bits 0-3 are C19's); wave RAM read with channel 3 off is what was last stored there and survives power cycles. Signature = (register, power state at the write, value class, after power cycle?)." +
+			" Environment dimensions as C12.",
 		Assumptions:    []string{"power-on register values before the first power cycle are not part of the statement", "wave RAM is re-baselined after writes made while channel 3 plays and after a retrigger of a playing channel 3 (hardware corrupts it then)"},
 		RequiredProbes: []string{"write_while_off_ignored", "length_write_while_off", "power_off", "power_on", "wave_ram_checked_after_power_cycle", "unmapped_sound_io"},
 		RealComponents: realComponents, StubComponents: stubComponents,
